@@ -6,7 +6,8 @@
 From Coq Require Import Reals ZArith List Bool Lra Lia SpecFloat.
 From Coquelicot Require Import Coquelicot.
 From Sky Require Import Result PyList Num NumR G_grid M_Grid M_GridSF P_Grid P_GridInterp P_GridSF
-  P_GridCall P_GridLocal P_GridIrr P_GridExt P_GridCache.
+  P_GridCall P_GridLocal P_GridIrr P_GridExt P_GridCache
+  M_GridPdf P_GridHist P_GridPdf P_GridBelow.
 Import ListNotations.
 Open Scope R_scope.
 
@@ -266,6 +267,142 @@ Theorem C15_parabola_two_calls_consistent : forall (erf : R -> R) (g : gdesc) (F
 Proof. exact parabola_second_call_consistent. Qed.
 Print Assumptions C15_parabola_two_calls_consistent.
 
+(* ---- cache consistency as a state machine: EVERY history of calls on one object
+   (any length, any trial data state ids -- the layout of the values array is a function
+   of the state id --, shared or per-source values, some sources changing cell and
+   others not): each returned (values, gradients) is the cache-free per-entry computation
+   at the arguments of that call *)
+Theorem C15_linear_history_consistent : forall (erf : R -> R) (a b d : Z) (Fm : manifold)
+    (layout : Z -> list (nat * nat)) (calls : list (Z * list R)) (xofs : list (nat -> R)),
+  (0 <= d)%Z -> (0 < b)%Z ->
+  let g := {| g_lb := IZR a / IZR (10 ^ d); g_delta := IZR b / IZR (10 ^ d); g_dec := d |} in
+  (forall k id xs xof, nth_error calls k = Some (id, xs) -> nth_error xofs k = Some xof ->
+     forall s e, In (s, e) (layout id) -> bcast xs s = Ok (xof s) /\ g_lb g <= xof s) ->
+  forall k id xs xof v gr,
+    nth_error calls k = Some (id, xs) -> nth_error xofs k = Some xof ->
+    nth_error (lin_run (RNum erf) g Fm layout None calls) k = Some (Ok (v, gr)) ->
+    v = map (fun se => lin_value1 (RNum erf) g (fun t => Fm id t (fst se) (snd se)) (xof (fst se))) (layout id) /\
+    gr = map (fun se => lin_grad1 (RNum erf) g (fun t => Fm id t (fst se) (snd se)) (xof (fst se))) (layout id).
+Proof.
+  intros erf a b d Fm layout calls xofs Hd Hb g.
+  exact (linear_history_consistent erf a b d Hd Hb Fm layout calls xofs None (or_introl eq_refl)).
+Qed.
+Print Assumptions C15_linear_history_consistent.
+
+(* ... and no call of such a history raises when every value array has length 1 or n *)
+Theorem C15_linear_history_no_error : forall (erf : R -> R) (a b d : Z) (Fm : manifold)
+    (layout : Z -> list (nat * nat)) (calls : list (Z * list R)) (xofs : list (nat -> R)) (n : nat),
+  (0 <= d)%Z -> (0 < b)%Z ->
+  let g := {| g_lb := IZR a / IZR (10 ^ d); g_delta := IZR b / IZR (10 ^ d); g_dec := d |} in
+  length xofs = length calls ->
+  (forall k id xs xof, nth_error calls k = Some (id, xs) -> nth_error xofs k = Some xof ->
+     (forall s e, In (s, e) (layout id) -> bcast xs s = Ok (xof s) /\ g_lb g <= xof s)
+     /\ (length xs = 1 \/ length xs = n)%nat) ->
+  forall k r, nth_error (lin_run (RNum erf) g Fm layout None calls) k = Some r -> exists vg, r = Ok vg.
+Proof.
+  intros erf a b d Fm layout calls xofs n Hd Hb g.
+  exact (linear_history_no_error erf a b d Hd Hb Fm layout calls xofs n None (or_introl eq_refl) I).
+Qed.
+Print Assumptions C15_linear_history_no_error.
+
+Theorem C15_parabola_history_consistent : forall (erf : R -> R) (g : gdesc) (Fm : manifold)
+    (layout : Z -> list (nat * nat)) (calls : list (Z * list R)) (xofs : list (nat -> R)),
+  (forall k id xs xof, nth_error calls k = Some (id, xs) -> nth_error xofs k = Some xof ->
+     forall s e, In (s, e) (layout id) -> bcast xs s = Ok (xof s)) ->
+  forall k id xs xof v gr,
+    nth_error calls k = Some (id, xs) -> nth_error xofs k = Some xof ->
+    nth_error (par_run (RNum erf) g Fm layout None calls) k = Some (Ok (v, gr)) ->
+    v = map (fun se => par_value1 (RNum erf) g (fun t => Fm id t (fst se) (snd se)) (xof (fst se))) (layout id) /\
+    gr = map (fun se => par_grad1 (RNum erf) g (fun t => Fm id t (fst se) (snd se)) (xof (fst se))) (layout id).
+Proof.
+  intros erf g Fm layout calls xofs.
+  exact (parabola_history_consistent erf g Fm layout calls xofs None (or_introl eq_refl)).
+Qed.
+Print Assumptions C15_parabola_history_consistent.
+
+Theorem C15_parabola_history_no_error : forall (erf : R -> R) (g : gdesc) (Fm : manifold)
+    (layout : Z -> list (nat * nat)) (calls : list (Z * list R)) (xofs : list (nat -> R)) (n : nat),
+  length xofs = length calls ->
+  (forall k id xs xof, nth_error calls k = Some (id, xs) -> nth_error xofs k = Some xof ->
+     (forall s e, In (s, e) (layout id) -> bcast xs s = Ok (xof s)) /\ (length xs = 1 \/ length xs = n)%nat) ->
+  forall k r, nth_error (par_run (RNum erf) g Fm layout None calls) k = Some r -> exists vg, r = Ok vg.
+Proof.
+  intros erf g Fm layout calls xofs n.
+  exact (parabola_history_no_error erf g Fm layout calls xofs n None (or_introl eq_refl) I).
+Qed.
+Print Assumptions C15_parabola_history_no_error.
+
+(* ---- PDFSet lookup by the hash of the rounded grid values (every number system).
+   h v = hash(frozenset({name: v}.items())) *)
+Theorem C15_pdfset_lookup_finds_grid_pdf : forall (T A : Type) (h : T -> Z) (grid : list T) (pdfs : list A)
+    (tbl : pdfset) (i : nat) (gi : T) (q : A) (x : T),
+  ps_build h [] grid pdfs = Ok tbl ->
+  nth_error grid i = Some gi -> nth_error pdfs i = Some q ->
+  h x = h gi ->
+  ps_get h tbl x = Ok q.
+Proof. exact @ps_lookup_finds_grid_pdf. Qed.
+Print Assumptions C15_pdfset_lookup_finds_grid_pdf.
+
+Theorem C15_rounded_value_finds_its_pdf : forall (T : Type) (N : Num T) (A : Type) (h : T -> Z)
+    (d0 : T) (dec : Z) (arr : list T) (p : pgrid) (pdfs : list A) (tbl : pdfset) (v : T),
+  pg_make N d0 dec arr = Ok p ->
+  ps_build h [] (pg_grid p) pdfs = Ok tbl ->
+  (In (k_lower N (pg_desc p) v) (map (k_nearest N (pg_desc p)) arr) ->
+   exists i q, nth_error (pg_grid p) i = Some (round_lower N (pg_desc p) v) /\ nth_error pdfs i = Some q
+               /\ ps_get h tbl (round_lower N (pg_desc p) v) = Ok q) /\
+  (In (k_nearest N (pg_desc p) v) (map (k_nearest N (pg_desc p)) arr) ->
+   exists i q, nth_error (pg_grid p) i = Some (round_nearest N (pg_desc p) v) /\ nth_error pdfs i = Some q
+               /\ ps_get h tbl (round_nearest N (pg_desc p) v) = Ok q) /\
+  (In (k_upper N (pg_desc p) v) (map (k_nearest N (pg_desc p)) arr) ->
+   exists i q, nth_error (pg_grid p) i = Some (round_upper N (pg_desc p) v) /\ nth_error pdfs i = Some q
+               /\ ps_get h tbl (round_upper N (pg_desc p) v) = Ok q).
+Proof. exact @rounded_value_finds_its_pdf. Qed.
+Print Assumptions C15_rounded_value_finds_its_pdf.
+
+(* given a self-consistent grid (the computable float predicate) and Python's hash
+   contract (values comparing equal hash equal) *)
+Theorem C15_self_consistent_grid_point_finds_own_pdf : forall (T : Type) (N : Num T) (A : Type) (h : T -> Z)
+    (p : pgrid) (pdfs : list A) (tbl : pdfset) (i : nat) (gi : T) (q : A),
+  (forall x y, neqb N x y = true -> h x = h y) ->
+  self_consistent N p = true ->
+  ps_build h [] (pg_grid p) pdfs = Ok tbl ->
+  nth_error (pg_grid p) i = Some gi -> nth_error pdfs i = Some q ->
+  ps_get h tbl (round_lower N (pg_desc p) gi) = Ok q /\
+  ps_get h tbl (round_nearest N (pg_desc p) gi) = Ok q.
+Proof. exact @self_consistent_grid_point_finds_own_pdf. Qed.
+Print Assumptions C15_self_consistent_grid_point_finds_own_pdf.
+
+(* the guard "ps_build ... = Ok tbl" is needed: distinct grid values can have equal hashes *)
+Theorem C15_pdfset_build_refuted :
+  NoDup [-3; -2; -1; 0]%Z /\
+  ps_build cpython_hash_small [] [-3; -2; -1; 0]%Z [0; 1; 2; 3]%nat = Err KeyError /\
+  exists tbl, ps_build cpython_hash_small [] [-3; -2; 0; 1]%Z [0; 1; 2; 3]%nat = Ok tbl.
+Proof. exact pdfset_build_refuted. Qed.
+Print Assumptions C15_pdfset_build_refuted.
+
+(* ---- the guard "origin <= v" of C15_bracket / C15_nearest_half_spacing is needed:
+   below the origin astype(int64) truncates towards zero instead of flooring *)
+Theorem C15_nearest_below_origin_refuted : forall erf : R -> R,
+  let g := {| g_lb := IZR 1 / IZR (10 ^ 0); g_delta := IZR 1 / IZR (10 ^ 0); g_dec := 0 |} in
+  exists v : R, v < g_lb g /\ g_lb g - v < g_delta g / 2 /\
+    round_nearest (RNum erf) g v = g_lb g + g_delta g /\
+    Rabs (round_nearest (RNum erf) g v - v) > g_delta g / 2 + 5 / 10000000000 * g_delta g.
+Proof. exact nearest_below_origin_refuted. Qed.
+Print Assumptions C15_nearest_below_origin_refuted.
+
+Theorem C15_lower_below_origin_refuted : forall erf : R -> R,
+  let g := {| g_lb := IZR 1 / IZR (10 ^ 0); g_delta := IZR 1 / IZR (10 ^ 0); g_dec := 0 |} in
+  exists v : R, v < g_lb g /\ v < round_lower (RNum erf) g v.
+Proof. exact lower_below_origin_refuted. Qed.
+Print Assumptions C15_lower_below_origin_refuted.
+
+(* the guard "first grid point <= v" of C15_irregular_lower_upper is needed: below the first
+   point the index -1 wraps around to the LAST grid point *)
+Theorem C15_irregular_lower_below_first_refuted : forall erf : R -> R,
+  irr_lower (RNum erf) [1; 2] 0 = Ok 2.
+Proof. exact irregular_lower_below_first_refuted. Qed.
+Print Assumptions C15_irregular_lower_below_first_refuted.
+
 (* ---- non-vacuity *)
 Example C15_ex_fine_grid_self_consistent :
   exists p, pg_make SFNum sf_d3 3 (sf_arange sf_zero sf_d3 6) = Ok p /\ self_consistent SFNum p = true.
@@ -279,5 +416,10 @@ Example C15_ex_bcast_shared : forall s : nat, bcast (T := Z) [7%Z] s = Ok 7%Z.
 Proof. intros s. reflexivity. Qed.
 Example C15_ex_inside_cell : IZR 2 + 5 / 10000000000 < (1 + 25 / 100 - IZR 10 / IZR (10 ^ 1)) / (IZR 1 / IZR (10 ^ 1)) < IZR 2 + 1 - 5 / 10000000000.
 Proof. change (10 ^ 1)%Z with 10%Z. split; lra. Qed.
+Example C15_ex_pdfset : exists tbl, ps_build (fun x : Z => x) [] [10; 20; 30]%Z [1; 2; 3]%nat = Ok tbl
+  /\ ps_get (fun x : Z => x) tbl 20%Z = Ok 2%nat /\ ps_get (fun x : Z => x) tbl 25%Z = Err KeyError.
+Proof. eexists. repeat split; reflexivity. Qed.
+Example C15_ex_pdfset_hash_collision : ps_build (fun _ : Z => 0%Z) [] [10; 20]%Z [1; 2]%nat = Err KeyError.
+Proof. reflexivity. Qed.
 Example C15_ex_hypotheses : (0 <= 3 <= 16)%Z /\ (0 < 1)%Z /\ IZR 58000000 / IZR (10 ^ 3) <= 58000 + 1 / 2.
 Proof. split; [lia|split; [lia|]]. change (10 ^ 3)%Z with 1000%Z. lra. Qed.
